@@ -1426,7 +1426,7 @@ def run(ck):
     ok1, failing1, log1 = corr_run(cr, 'c13')
     t3 = time.time()
     cr2 = Corr(ck)
-    explore_random(cr2, 50 if quick else 800, 12 if quick else 25)
+    explore_random(cr2, 50 if quick else 500, 12 if quick else 25)
     t4 = time.time()
     ok2, failing2, log2 = corr_run(cr2, 'c13r', shard=7 if quick else 25)
     t5 = time.time()
